@@ -235,6 +235,10 @@ func obtainStructValueType(o interface{}) (bool, reflect.Value, reflect.Type) {
 	case reflect.Struct:
 		return true, v, t
 	case reflect.Ptr:
+		// only a pointer to a struct; a nil pointer has no fields to read
+		if v.IsNil() || v.Elem().Kind() != reflect.Struct {
+			return false, v, nil
+		}
 		return true, v.Elem(), t.Elem()
 	default:
 		return false, v, nil
